@@ -127,29 +127,59 @@ func (s *fileState) exec(c *ctx, op string) string {
 			return ""
 		}
 		content := unhx(f[2])
+		// One write() and no truncation, so that the watcher sees exactly one change and never an
+		// intermediate (empty or half-written) file: pad the new content with comment lines up to the
+		// length of the current file and overwrite in place.
+		if st, err := os.Stat(s.name[pi]); err == nil && int64(len(content)) < st.Size() {
+			if len(content) > 0 && content[len(content)-1] != '\n' {
+				content = append(content, '\n')
+			}
+			for int64(len(content)) < st.Size() {
+				pad := st.Size() - int64(len(content))
+				if pad == 1 {
+					content = append(content, '\n')
+				} else {
+					line := "#" + strings.Repeat("p", int(pad)-2) + "\n"
+					content = append(content, line...)
+				}
+			}
+		}
+		// how long to wait: ask the loader itself (on a private copy) whether this file is acceptable
+		probe := s.name[pi] + ".probe"
+		os.WriteFile(probe, content, 0o644)
+		var perr error
+		if v6 {
+			_, perr = file.LoadDHCPv6Records(probe)
+		} else {
+			_, perr = file.LoadDHCPv4Records(probe)
+		}
+		os.Remove(probe)
 		before := tablePtr(v6)
-		if err := os.WriteFile(s.name[pi], content, 0o644); err != nil {
+		fh, err := os.OpenFile(s.name[pi], os.O_WRONLY, 0o644)
+		if err != nil {
 			panic(err)
 		}
-		// fsnotify delivery is asynchronous ("eventually"): wait until the served table was replaced
-		// and stays put, at most one second
+		if _, err := fh.WriteAt(content, 0); err != nil {
+			panic(err)
+		}
+		fh.Close()
+		// fsnotify delivery is asynchronous ("eventually"): a file the loader accepts must replace the
+		// served table within 10 s; one it rejects must not have replaced it after 300 ms
 		seen := "unchanged"
-		deadline := time.Now().Add(1 * time.Second)
-		last := before
-		stable := 0
+		wait := 300 * time.Millisecond
+		if perr == nil {
+			wait = 10 * time.Second
+		}
+		deadline := time.Now().Add(wait)
 		for time.Now().Before(deadline) {
-			time.Sleep(10 * time.Millisecond)
-			cur := tablePtr(v6)
-			if cur != last {
-				last = cur
-				stable = 0
+			time.Sleep(5 * time.Millisecond)
+			if tablePtr(v6) != before {
 				seen = "replaced"
-			} else {
-				stable++
-			}
-			if stable >= 12 {
 				break
 			}
+		}
+		if seen == "replaced" {
+			time.Sleep(20 * time.Millisecond) // let a second event for the same write settle
 		}
 		c.emit(op, lineOracle(content)+" ; "+seen)
 		return seen
